@@ -47,6 +47,11 @@ def check(ctx, report):
     flags_and_timestamps(ctx, report, R4='C05.R10', R5='C05.R10')
     text_dates(ctx, report)
     json_member_round_trip(ctx, report)
+    from .c08 import rsa_key_round_trip
+    report.rule('C05.R13', 'DNSKEY RSA and DSA fields: every exponent / modulus / prime encoding that is accepted is composed to bytes that read as the same key')
+    rsa_key_round_trip(ctx, report, rule='C05.R13')
+    from .c08 import dss_key_round_trip
+    dss_key_round_trip(ctx, report, rule='C05.R13')
     from .c18 import name_value_composers
     name_value_composers(ctx, report, rule='C05.R5')
     from .c08 import txt_chunks
